@@ -46,6 +46,7 @@ type Resp struct {
 	ReplayParked []string
 	ReplayPanics []string
 	Direct       *DirectReport
+	API          map[int32][]string // replay: exported library functions per thread
 }
 
 func key(p []int32) string {
@@ -133,6 +134,12 @@ func handle(req *Req) *Resp {
 				resp.ReplayParked = r.Parked
 				resp.ReplayPanics = r.Panics
 				resp.Samples = append(resp.Samples, MakeSample(s, &r))
+				resp.API = map[int32][]string{}
+				for t, set := range APICalls(&r) {
+					for f := range set {
+						resp.API[t] = append(resp.API[t], f)
+					}
+				}
 			}
 		}
 		return resp
